@@ -17,13 +17,17 @@ func main() {
 	dump := flag.String("dump", "", "debug: 'cfg:<pkg>:<func>' or 'sql:<pkg>' or 'funcs:<pkg>'")
 	explain := flag.String("explain", "", "print a replay file in readable form")
 	sweepAll := flag.String("sweepall", "", "development aid: package prefix (e.g. store.) whose analysed functions are mutated and run against all properties")
+	benignSweep := flag.String("benignsweep", "", "development aid: like -sweepall with behaviour-preserving variants; a reported violation is a false alarm")
 	sweepMax := flag.Int("sweepmax", 0, "cap on the number of variants of -sweepall")
 	flag.Parse()
 	if *dump != "" {
 		os.Exit(kit.Dump(*dump))
 	}
 	if *sweepAll != "" {
-		os.Exit(kit.SweepAll(*sweepAll, *sweepMax))
+		os.Exit(kit.SweepAll(*sweepAll, *sweepMax, false))
+	}
+	if *benignSweep != "" {
+		os.Exit(kit.SweepAll(*benignSweep, *sweepMax, true))
 	}
 	if *explain != "" {
 		os.Exit(kit.Explain(*explain))
